@@ -12,7 +12,7 @@ COMMON_NOTE = ('Trusted: Lean 4.33 kernel; axioms at most propext, Classical.cho
 
 # id -> (built, technique, level text, design_ref, note)
 P = {
- 'C01': (False, 'Lean 4 theorems (loop-to-set refinement of the search loops) + differential correspondence against the Lean spec',
+ 'C01': (True, 'Lean 4 theorems (loop-to-set refinement of the search loops) + differential correspondence against the Lean spec',
          'Theorems: the modelled search loops + slice arithmetic + accumulators compute exactly the spec set for all sequences, k<=32, '
          'ACGT prefixes (mem_signature_iff, signature_eq_specList, signature_sorted, accumulators_agree). Tie: real calc_signature output '
          'must equal GambitV.specList (the Lean spec) on generated inputs; find_kmers positions and bytes.find validated against the model.',
